@@ -99,7 +99,7 @@ def inject(scratch):
 # ------------------------------------------------------------------------------------------------
 # running one Kani harness
 # ------------------------------------------------------------------------------------------------
-CHECK_RE = re.compile(r"^Check (\d+): (\S+)\s*$")
+CHECK_RE = re.compile(r"^Check (\d+): (.+?)\s*$")
 
 
 def parse_kani_output(text):
